@@ -93,6 +93,14 @@ Theorem C07_bad_version : forall b,
   OPEN_MINIMUM_BODY_SIZE <= len b -> nth 0 b 0 <> BGP_VERSION -> dec_open b = Notify 2 1.
 Proof. exact bad_version_refused. Qed.
 
+(* an optional parameter of unknown type is answered 2/UNKNOWN_PARAM_SUBCODE: the value T6 probed on this tree;
+   RFC 4271 6.2 requires 4 (unsupported optional parameter), the harness demands it on the implementation *)
+Theorem C07_unknown_parameter : forall fixed key v rest,
+  length fixed = 9%nat -> nth 0 fixed 0 = BGP_VERSION -> key <> PARAM_AUTH -> key <> PARAM_CAPABILITIES ->
+  key <> EXTENDED_LENGTH -> len (key :: len v :: v ++ rest) < 255 ->
+  dec_open (fixed ++ len (key :: len v :: v ++ rest) :: key :: len v :: v ++ rest) = Notify 2 UNKNOWN_PARAM_SUBCODE.
+Proof. exact unknown_param_refused. Qed.
+
 (* Capability framing round trip, for EVERY list of capabilities (any number, so both the RFC 4271 encoding and,
    from 255 octets of optional parameters on, the RFC 9072 one) and every fixed fields. *)
 Theorem C07_open_roundtrip : forall o, wf_open o -> dec_open (enc_open o) = Ok o.
@@ -101,6 +109,25 @@ Proof. exact open_roundtrip. Qed.
 Theorem C07_our_open_roundtrip : forall c,
   Forall (fun f : fam => 0 <= snd f < 256) (c_families c) -> dec_open (enc_open (open_of c)) = Ok (open_of c).
 Proof. exact our_open_roundtrip. Qed.
+
+(* The encoding is a string of octets whenever the values fit their wire fields (each capability value at most
+   253 octets so that its parameter fits one length octet, optional parameters at most 65535 octets). *)
+Theorem C07_enc_open_bytes : forall o, fits_open o -> bytes (enc_open o).
+Proof. exact enc_open_bytes. Qed.
+
+(* Total decoder: ANY octet string is either refused with a defined error - Bad Message Length 1/2, OPEN Message
+   Error 2/0 (malformed optional parameters or capability value), 2/1 (version), 2/4 (unknown parameter, once
+   repaired), 2/5 (authentication parameter) -
+   or decoded into an OPEN o whose encoding decodes again, to the normal form of o (tuples the encoder never
+   emits - ADD-PATH Send/Receive 0, paths-limit 0 - removed), which is a fixed point of encode then decode.
+   In particular the decoder never runs out of fuel and raises nothing else. *)
+Theorem C07_decoder_total : forall b, bytes b ->
+  match dec_open b with
+  | Notify a c => In (a, c) [(1, 2); (2, 0); (2, 1); (2, 4); (2, 5)]
+  | Ok o => dec_open (enc_open o) = Ok (norm_open o)
+            /\ dec_open (enc_open (norm_open o)) = Ok (norm_open o)
+  end.
+Proof. exact dec_open_total. Qed.
 
 (* non-vacuity: hypotheses are met by concrete values; a configuration whose OPEN needs RFC 9072 *)
 Definition cfg_big : cfg :=
@@ -117,7 +144,11 @@ Example C07_example :
   /\ n_local_as (negotiate_g true (open_of cfg_70000) peer_65001) = 70000
   /\ validate_g true cfg_ibgp_70000 peer_70000_same_id (negotiate_g true (open_of cfg_ibgp_70000) peer_70000_same_id) = Some (2, 3)
   /\ nth 9 (enc_open (open_of cfg_big)) 0 = 255 /\ nth 10 (enc_open (open_of cfg_big)) 0 = 255
-  /\ dec_open (enc_open (open_of cfg_big)) = Ok (open_of cfg_big).
+  /\ dec_open (enc_open (open_of cfg_big)) = Ok (open_of cfg_big)
+  /\ forallb (fun x => (0 <=? x) && (x <? 256)) (enc_open (open_of cfg_big)) = true
+  /\ n_ms (negotiate_g true (open_of cfg_big) peer_65001) = MsRefuse 2 9
+  /\ pl_lookup (n_adv_paths_limit (negotiate_g true (open_of cfg_big)
+        {| o_version := 4; o_asn := 65001; o_hold := 90; o_rid := 5; o_caps := [CapAddPath [((1, 1), 2)]] |})) (1, 1) = Some 10.
 Proof.
   split; [exact wf_cfg_70000|]. split; [exact wf_peer_65001|]. vm_compute. repeat split; reflexivity.
 Qed.
@@ -133,7 +164,10 @@ Print Assumptions C07_addpath_direction.
 Print Assumptions C07_multisession.
 Print Assumptions C07_refusals.
 Print Assumptions C07_collision_refuted.
+Print Assumptions C07_unknown_parameter.
 Print Assumptions C07_short_open.
 Print Assumptions C07_bad_version.
 Print Assumptions C07_open_roundtrip.
 Print Assumptions C07_our_open_roundtrip.
+Print Assumptions C07_enc_open_bytes.
+Print Assumptions C07_decoder_total.
